@@ -229,6 +229,9 @@ def draw_multi_params(rng, descs: list[dict]) -> dict:
     p = {"n_modes": rng.randint(2, min(3, r)), "pca": rng.random() < 0.4,
          "check_nans": True, "eps": 1e-6}
     if p["pca"]:
+        # the PCA pre-reduction may keep as few as two modes per view; canonical modes beyond the smallest
+        # reduced view are not defined by the data (degenerate eigen-directions), so ask for two
+        p["n_modes"] = 2
         p["init_pca_modes"] = rng.choice([0.75, 0.9, 1.0])
         p["variance_fraction"] = rng.choice([0.99, 0.9])
     if rng.random() < 0.3:
